@@ -17,7 +17,7 @@ from ..index import AnchorMissing, Unrecognised
 from ..absval import Evaluator
 from ..cfg import CFG
 from ..pend import edge_facts
-from ..astutil import (u, body_walk, local_env, func_calls, walk_local, class_inline_env, single_return_expr, inline_locals, statements)
+from ..astutil import (linear_body, u, body_walk, local_env, func_calls, walk_local, class_inline_env, single_return_expr, inline_locals, statements)
 from .. import sym
 
 EXPLANATION = ("Static comparison of the BAM decoder's source with the SAM/BAM specification embedded in the checker: each field getter is reduced to a "
@@ -155,7 +155,7 @@ def r1_layout(ctx):
             words = n.args[0]
     ctx.need(words is not None, "_get_cigar does not call split_cigar")
     # cigars is rebound: evaluate statement by statement
-    st = [n for n in gc.node.body if isinstance(n, ast.Assign)]
+    st = [n for n in linear_body(gc.node) if isinstance(n, ast.Assign)]
     ctx.need(len(st) >= 3, "_get_cigar: unexpected shape")
     first = full(st[0].value)
     ok1 = first == sym.canon(sym.parse_expr(f"ragged_slice(self._data, {spec['self._cigar_start']}, {spec['self._sequence_start']})"))
@@ -264,12 +264,12 @@ def r2_code_tables(ctx):
     asserts = [n for n in body_walk(rh.node) if isinstance(n, ast.Assert)]
     ok = any(isinstance(a.test, ast.Compare) and any(isinstance(x, ast.Constant) and x.value == b"BAM\x01" for x in ast.walk(a.test)) for a in asserts)
     ctx.ob(rh.where, "the header magic 'BAM\\1' is checked", ok, "")
-    st = [u(s) for s in rh.node.body if not (isinstance(s, ast.Expr) and isinstance(s.value, ast.Constant))]
+    st = [u(s) for s in linear_body(rh.node) if not (isinstance(s, ast.Expr) and isinstance(s.value, ast.Constant))]
     want = ["magic = self.read(4)", None, "header_length = self._read_int()", "self.read(header_length)", "n_ref = self._read_int()", "return self._handle_refs(n_ref)"]
     ok = len(st) == len(want) and all(w is None or w == s for w, s in zip(want, st))
     ctx.ob(rh.where, "header = magic, l_text, text, n_ref, then the references, read in that order", ok, " | ".join(st), key="C16-R2|header-order")
     hr = ix.func(BAM, "BamHeader._handle_refs")
-    st = [u(s) for s in hr.node.body[1].body] if len(hr.node.body) > 1 and isinstance(hr.node.body[1], ast.For) else []
+    st = [u(s) for s in linear_body(hr.node)[1].body] if len(linear_body(hr.node)) > 1 and isinstance(linear_body(hr.node)[1], ast.For) else []
     ok = st == ["ref_n = self._read_int()", "name = self._read_zero_term()", "sequence_length = self._read_int()", "info.append((name, sequence_length))"]
     ctx.ob(hr.where, "each reference = l_name, NUL-terminated name, l_ref, recorded as (name, length)", ok, " | ".join(st), key="C16-R2|refs")
     ri = ix.func(BAM, "BamHeader._read_int")
@@ -300,7 +300,7 @@ def r3_interval_view(ctx):
     ok = len(rets) == 1 and sym.same(rets[0].value, f"{u(fl[0].targets[0])}[{f.params[1]}]()")
     ctx.ob(f.where, "field i is getter i", ok, "")
     gd = ix.func(BAM, "BamIntervalBuffer.get_data")
-    first_ret = [n for n in gd.node.body if isinstance(n, ast.Return)]
+    first_ret = [n for n in linear_body(gd.node) if isinstance(n, ast.Return)]
     ok = bool(first_ret) and sym.same(first_ret[0].value, "self.dataclass(*(self.get_field_by_number(i) for i in range(6)))")
     ctx.ob(gd.where, "the interval table is built from getters 0..5 in order", ok, "")
     bd = ix.func(BAM, "BamBuffer.get_data")
@@ -410,7 +410,7 @@ def r5_sentinel_refid(ctx):
 def r6_writer(ctx):
     ix = ctx.index
     rd = ix.func(BAM, "BamHeader.read")
-    st = [u(s) for s in rd.node.body]
+    st = [u(s) for s in linear_body(rd.node)]
     p = rd.params[1]
     ok = st == [f"bytes = self._file_object.read({p})", "self._header_data.append(bytes)", "return bytes"]
     ctx.ob(rd.where, "every byte read while parsing the header is recorded, in order", ok, " | ".join(st), key="C16-R6|record")
